@@ -23,15 +23,18 @@ def run(tier, seed, replay=None):
     r = Run("C07", tier, seed)
     core.build_harness()
     if replay:
-        # replay files hold the recorded case; re-run the generators deterministically is not possible for random trees,
-        # so the case is re-judged as recorded and the string cases are re-executed
+        # the recorded case is put through the current code again: a round trip is rebuilt from its dumped tree, an
+        # inner/outer case from its document source
         meta, lines = core.load_replay(replay)
-        src = os.path.join(WORK, "traces", "C07-replay-in.ndjson")
-        with open(src, "w") as f:
-            f.write("\n".join(lines) + "\n")
-        res = core.tlc_trace("C07-replay", SPEC, CFG, src)
-        core.log("[replay] recorded case re-judged: %s" % ("rejected" if res["rejects"] else "accepted"))
-        return 1 if res["rejects"] else 0
+        for (kind, mode) in (("rt", "roundtrip"), ("io", "inner")):
+            sel = [l for l in lines if '"ev":"%s"' % kind in l]
+            if not sel:
+                continue
+            src = os.path.join(WORK, "traces", "C07-replay-in-%s.ndjson" % kind)
+            with open(src, "w") as f:
+                f.write("\n".join(sel) + "\n")
+            r.gen_validate("replay-" + kind, ["hser", "--mode", mode, "--replay"], SPEC, CFG, 1, classify, core.count_lines, stdin_files=[src])
+        return r.finish(RULE, write=False)
     q = tier == "quick"
     N = core.NCPU
     cases = os.path.join(WORK, "traces", "C07-mc-cases.ndjson")
